@@ -31,11 +31,12 @@ type World struct {
 	prober  *Prog
 	csum    *Prog
 	overlay map[string][]byte
+	goarch  string
 }
 
 func (w *World) GCP() *Prog {
 	if w.gcp == nil {
-		p, err := loadProg(filepath.Join(w.repo, "grpcgcp"), []string{".", "./multiendpoint", "./grpc_gcp"}, w.all, w.overlay, "")
+		p, err := loadProg(filepath.Join(w.repo, "grpcgcp"), []string{".", "./multiendpoint", "./grpc_gcp"}, w.all, w.overlay, w.goarch)
 		if err != nil {
 			w.c.fatalf("load grpcgcp: %v", err)
 			return nil
@@ -62,7 +63,7 @@ func (w *World) GCPSums() *Summaries {
 
 func (w *World) Prober() *Prog {
 	if w.prober == nil {
-		p, err := loadProg(filepath.Join(w.repo, "spanner_prober"), []string{".", "./prober"}, w.all, w.overlay, "")
+		p, err := loadProg(filepath.Join(w.repo, "spanner_prober"), []string{".", "./prober"}, w.all, w.overlay, w.goarch)
 		if err != nil {
 			w.c.fatalf("load spanner_prober: %v", err)
 			return nil
@@ -75,7 +76,7 @@ func (w *World) Prober() *Prog {
 
 func (w *World) Checksum() *Prog {
 	if w.csum == nil {
-		p, err := loadProg(filepath.Join(w.repo, "e2e-checksum"), []string{"."}, w.all, w.overlay, "")
+		p, err := loadProg(filepath.Join(w.repo, "e2e-checksum"), []string{"."}, w.all, w.overlay, w.goarch)
 		if err != nil {
 			w.c.fatalf("load e2e-checksum: %v", err)
 			return nil
